@@ -2,6 +2,7 @@ package main
 
 import (
 	"bufio"
+	"encoding/json"
 	"bytes"
 	"fmt"
 	"os"
@@ -27,6 +28,7 @@ type tooth struct {
 	old    string
 	new    string
 	expect string // substring of the new failing key
+	patch  string // alternatively: a unified diff to apply (seeded changes kept under /verif/seeded)
 }
 
 type toothResult struct {
@@ -41,6 +43,22 @@ func runTeeth(c *Ctx, pd *propDef) {
 	for _, t := range allTeeth {
 		if t.prop == c.Prop {
 			mine = append(mine, t)
+		}
+	}
+	// the seeded changes written by independent sub-agents for this property are teeth too
+	if ents, err := os.ReadDir(filepath.Join(c.VerifDir, "seeded")); err == nil {
+		for _, e := range ents {
+			mb, err := os.ReadFile(filepath.Join(c.VerifDir, "seeded", e.Name(), "meta.json"))
+			if err != nil {
+				continue
+			}
+			var m struct {
+				Property string `json:"property"`
+			}
+			if json.Unmarshal(mb, &m) != nil || m.Property != c.Prop {
+				continue
+			}
+			mine = append(mine, tooth{prop: c.Prop, name: "seeded/" + e.Name(), file: "patch.diff", patch: filepath.Join(c.VerifDir, "seeded", e.Name(), "patch.diff")})
 		}
 	}
 	if len(mine) == 0 {
@@ -97,15 +115,19 @@ var runThorough = runTeeth
 
 func runTooth(self string, c *Ctx, t tooth, base map[string]bool) toothResult {
 	res := toothResult{t: t}
-	src := filepath.Join(c.Repo, t.file)
-	b, err := os.ReadFile(src)
-	if err != nil {
-		res.status, res.detail = "skipped", "file not present"
-		return res
-	}
-	if strings.Count(string(b), t.old) != 1 {
-		res.status, res.detail = "skipped", fmt.Sprintf("anchor text occurs %d times", strings.Count(string(b), t.old))
-		return res
+	var b []byte
+	if t.patch == "" {
+		src := filepath.Join(c.Repo, t.file)
+		var err error
+		b, err = os.ReadFile(src)
+		if err != nil {
+			res.status, res.detail = "skipped", "file not present"
+			return res
+		}
+		if strings.Count(string(b), t.old) != 1 {
+			res.status, res.detail = "skipped", fmt.Sprintf("anchor text occurs %d times", strings.Count(string(b), t.old))
+			return res
+		}
 	}
 	dir, err := os.MkdirTemp("", "tcellvet-tooth-")
 	if err != nil {
@@ -118,7 +140,21 @@ func runTooth(self string, c *Ctx, t tooth, base map[string]bool) toothResult {
 		res.status, res.detail = "error", "copy failed: "+string(out)
 		return res
 	}
-	if err := os.WriteFile(filepath.Join(dir, t.file), []byte(strings.Replace(string(b), t.old, t.new, 1)), 0o644); err != nil {
+	if t.patch != "" {
+		pf, err := os.Open(t.patch)
+		if err != nil {
+			res.status, res.detail = "skipped", "patch not readable"
+			return res
+		}
+		pc := exec.Command("patch", "-p1", "-s", "-f", "-d", dir)
+		pc.Stdin = pf
+		out, err := pc.CombinedOutput()
+		pf.Close()
+		if err != nil {
+			res.status, res.detail = "skipped", "patch no longer applies: "+firstLine(string(out))
+			return res
+		}
+	} else if err := os.WriteFile(filepath.Join(dir, t.file), []byte(strings.Replace(string(b), t.old, t.new, 1)), 0o644); err != nil {
 		res.status, res.detail = "error", err.Error()
 		return res
 	}
